@@ -1011,6 +1011,11 @@ impl Registry {
                 let fac = w.fac.clone();
                 let msg = f::ExecuteMsg::RemovePair { asset_infos: w.arr2(ix[0], ix[1]) };
                 let o = guarded(|| w.app.execute_contract(owner, fac, &msg, &[]));
+                // the key is the unordered set: a registered pair can be removed whatever order the
+                // assets are named in
+                if w.live_pairs.contains(&set) {
+                    mon.check("C19", "remove_registered_any_order", matches!(o, Outcome::Ok(_)), || format!("remove_pair {:?} of a registered pair was refused", ix));
+                }
                 if let Outcome::Ok(_) = &o {
                     mon.check("C19", "remove_only_registered", w.live_pairs.contains(&set), || format!("remove_pair {:?} succeeded but the set was not registered", ix));
                     w.live_pairs.remove(&set);
@@ -1029,6 +1034,9 @@ impl Registry {
                 let fac = w.fac.clone();
                 let msg = f::ExecuteMsg::RemoveTrio { asset_infos: w.arr3(ix[0], ix[1], ix[2]) };
                 let o = guarded(|| w.app.execute_contract(owner, fac, &msg, &[]));
+                if w.live_trios.contains(&set) {
+                    mon.check("C19", "remove_registered_any_order", matches!(o, Outcome::Ok(_)), || format!("remove_trio {:?} of a registered trio was refused", ix));
+                }
                 if let Outcome::Ok(_) = &o {
                     mon.check("C19", "remove_only_registered", w.live_trios.contains(&set), || format!("remove_trio {:?} succeeded but the set was not registered", ix));
                     w.live_trios.remove(&set);
